@@ -322,10 +322,13 @@ func (b *Batch) Build(extraArgs ...string) BuildResult {
 	}
 	args := append([]string{"build", "-gcflags=-e"}, extraArgs...)
 	args = append(args, "./pkgs/...")
+	MaybeTrimCache()
 	cmd := exec.Command("go", args...)
 	cmd.Dir = b.Dir
 	cmd.Env = goEnv()
-	outb, err := cmd.CombinedOutput()
+	var outb []byte
+	var err error
+	WithCacheLock(func() { outb, err = cmd.CombinedOutput() })
 	res.Raw = string(outb)
 	if err == nil {
 		res.OK = append(res.OK, b.Pkgs...)
@@ -398,8 +401,11 @@ func (b *Batch) RunAggregator(pkgs []string, entryImport, entryFunc string, race
 	cmd := exec.Command("go", args...)
 	cmd.Dir = b.Dir
 	cmd.Env = goEnv()
-	if outb, err := cmd.CombinedOutput(); err != nil {
-		return string(outb), fmt.Errorf("aggregator build failed: %w", err)
+	var bout []byte
+	var berr error
+	WithCacheLock(func() { bout, berr = cmd.CombinedOutput() })
+	if berr != nil {
+		return string(bout), fmt.Errorf("aggregator build failed: %w", berr)
 	}
 	run := exec.Command(bin, append([]string{"-test.timeout", "3600s"}, testArgs...)...)
 	run.Dir = dir
